@@ -13,6 +13,7 @@ let parse_cmd tok =
   | ["W"; i] -> CancelWait (nat_of_int (int_of_string i))
   | ["X"; i] -> CancelWait2 (nat_of_int (int_of_string i))
   | ["D"; o] -> Dispatch (o = "1")
+  | ["L"] -> PollOnce
   | _ -> failwith ("cmd " ^ tok)
 let parse_list s = List.map parse_cmd (split_ws s)
 let label_s = function
@@ -22,7 +23,8 @@ let label_s = function
   | L_dl_cas -> "dl_cas" | L_dl_fetch_add -> "dl_fetch_add" | L_dl_fetch_and -> "dl_fetch_and"
   | L_dl_wload -> "dl_wload" | L_dl_wwait -> "dl_wwait" | L_pc_store -> "pc_store" | L_pc_lock -> "pc_lock"
   | L_pc_fetch_add -> "pc_fetch_add" | L_pc_fetch_sub -> "pc_fetch_sub" | L_pc_skip_sub -> "pc_skip_sub"
-  | L_run -> "run" | L_ret -> "ret" | L_nop -> "nop"
+  | L_run -> "run" | L_ret -> "ret" | L_nop -> "nop" | L_poll_enter -> "poll_enter"
+  | L_poll_wait_short -> "poll_wait_short" | L_poll_wait_full -> "poll_wait_full" | L_poll_leave -> "poll_leave"
 let us (a, b) = Printf.sprintf "%d.%d" (int_of_nat a) (int_of_nat b)
 let ev_s = function
   | EvPost (u, tgt, k, oid) ->
@@ -79,7 +81,7 @@ let () = each_line (fun line ->
           | Some l, Some c' ->
               let nlog = List.length c'.log - List.length !c.log in
               let evs = List.filter_map ev_s (List.rev (take nlog c'.log)) in
-              Buffer.add_string b (Printf.sprintf " %d:%s:%s:%s" ti (label_s l) (words c') (String.concat "" (List.map (fun b -> if b.intr then "1" else "0") c'.boxes)));
+              Buffer.add_string b (Printf.sprintf " %d:%s:%s:%s" ti (label_s l) (words c') (String.concat "" (List.map (fun b -> string_of_int ((if b.pol then 1 else 0) + (if b.intr then 2 else 0))) c'.boxes)));
               if evs <> [] then Buffer.add_string b (":" ^ String.concat "+" evs);
               c := c'
           | _ -> Buffer.add_string b (Printf.sprintf " %d:-" ti)
